@@ -15,9 +15,13 @@ import (
 	"github.com/ipld/go-ipld-prime/codec/dagcbor"
 	"github.com/ipld/go-ipld-prime/datamodel"
 
+	"github.com/ipld/go-ipld-prime/codec/dagjson"
+	"github.com/ucan-wg/go-ucan/did"
 	"github.com/ucan-wg/go-ucan/pkg/args"
 	"github.com/ucan-wg/go-ucan/pkg/meta"
+	"github.com/ucan-wg/go-ucan/pkg/policy"
 	"github.com/ucan-wg/go-ucan/pkg/policy/literal"
+	"github.com/ucan-wg/go-ucan/pkg/policy/selector"
 	"github.com/ucan-wg/go-ucan/token"
 	"github.com/ucan-wg/go-ucan/token/delegation"
 	"github.com/ucan-wg/go-ucan/token/invocation"
@@ -749,6 +753,135 @@ func (e *wireExec) step(s *XStep) {
 		e.hostileStep(s, w, env)
 	case "argtype":
 		e.argType(s)
+	case "textmut":
+		e.textMut(s)
+	}
+}
+
+// textMut: the text-level decoders (policy from DAG-JSON, selectors, did:key
+// strings) on inputs derived from the artefacts of this run by character-level
+// mutation, and whatever they accept is then used (matching, selecting, key
+// extraction).
+func (e *wireExec) textMut(s *XStep) {
+	o := e.o
+	mutate := func(in string) string {
+		b := []byte(in)
+		if len(b) == 0 {
+			return string([]byte{byte(s.Val)})
+		}
+		at := s.At % len(b)
+		switch s.Kind {
+		case "insert":
+			b = append(b[:at:at], append([]byte{byte(s.Val)}, b[at:]...)...)
+		case "delete":
+			b = append(b[:at:at], b[at+1:]...)
+		case "dup":
+			b = append(b[:at:at], append(append([]byte{}, b[at:]...), b[at:]...)...)
+		default:
+			b[at] = byte(s.Val)
+		}
+		return string(b)
+	}
+	// argument data to match / select against: the invocation's own arguments, if any
+	var argNode datamodel.Node
+	for _, w := range e.toks {
+		if w != nil {
+			if inv, ok := w.obj.(*invocation.Token); ok {
+				argNode, _ = inv.Arguments().WriteableClone().ToIPLD()
+			}
+		}
+	}
+	if argNode == nil {
+		argNode, _ = args.New().ToIPLD()
+	}
+	switch s.Field {
+	case "policy":
+		for _, w := range e.toks {
+			if w == nil {
+				continue
+			}
+			d, ok := w.obj.(*delegation.Token)
+			if !ok {
+				continue
+			}
+			pn, err := d.Policy().ToIPLD()
+			if err != nil {
+				continue
+			}
+			js, err := ipld.Encode(pn, dagjson.Encode)
+			if err != nil {
+				continue
+			}
+			m := mutate(string(js))
+			var pol policy.Policy
+			var perr error
+			st := guardT(o, "policy.FromDagJson", len(m), true, func() { pol, perr = policy.FromDagJson(m) })
+			o.Eval("C09")
+			o.Fault("text_mutation")
+			o.Sig("C09", "text", "policy", s.Kind, perr == nil)
+			if st.panicked || st.hung || perr != nil {
+				continue
+			}
+			guardT(o, "Policy.Match(after FromDagJson)", len(m), true, func() { pol.Match(argNode); pol.PartialMatch(argNode); _ = pol.String() })
+			guardT(o, "Policy.ToIPLD(after FromDagJson)", len(m), false, func() {
+				if n, err := pol.ToIPLD(); err == nil {
+					_, _ = policy.FromIPLD(n)
+				}
+			})
+		}
+	case "selector":
+		sels := []string{".", ".a", ".a.b", ".l[0]", ".l[-1]", ".l[1:3]", ".m.x?", ".l[]", ".s[0:2]", `.["a b"]`, ".a?.b?", ".l[:]", ".l[-9223372036854775808:9223372036854775807]"}
+		for _, w := range e.toks {
+			if w == nil || w.spec.Kind != "dlg" {
+				continue
+			}
+			var walk func(ss []Stmt)
+			walk = func(ss []Stmt) {
+				for _, st := range ss {
+					if st.Sel != "" {
+						sels = append(sels, st.Sel)
+					}
+					walk(st.Kids)
+				}
+			}
+			walk(w.spec.Dlg.Pol)
+		}
+		src := sels[s.At%len(sels)]
+		m := mutate(src)
+		if s.Val%5 == 0 {
+			m = src // also the unmutated, unusual forms
+		}
+		var sel selector.Selector
+		var serr error
+		st := guardT(o, "selector.Parse", len(m), true, func() { sel, serr = selector.Parse(m) })
+		o.Eval("C09")
+		o.Fault("text_mutation")
+		o.Sig("C09", "text", "selector", s.Kind, serr == nil)
+		if st.panicked || st.hung || serr != nil {
+			return
+		}
+		guardT(o, "Selector.Select", len(m), true, func() { _, _ = sel.Select(argNode); _ = sel.String() })
+		// and through a policy that uses it
+		guardT(o, "Policy with mutated selector", len(m), false, func() {
+			if pol, err := policy.Construct(policy.Equal(m, literal.Int(1)), policy.All(m, policy.Like(".", "a*")), policy.Any(m, policy.GreaterThan(".", literal.Int(0)))); err == nil {
+				pol.Match(argNode)
+				pol.PartialMatch(argNode)
+			}
+		})
+	case "did":
+		w := e.tok(s.Tok)
+		m := mutate(w.issuer)
+		var d did.DID
+		var derr error
+		st := guardT(o, "did.Parse", len(m), false, func() { d, derr = did.Parse(m) })
+		o.Eval("C09")
+		o.Fault("text_mutation")
+		o.Sig("C09", "text", "did", s.Kind, w.alg, derr == nil)
+		if st.panicked || st.hung || derr != nil {
+			return
+		}
+		guardT(o, "DID.PubKey", len(m), true, func() { _, _ = d.PubKey(); _ = d.String() })
+		guardT(o, "did.ToPubKey", len(m), false, func() { _, _ = did.ToPubKey(m) })
 	}
 }
 
